@@ -18,7 +18,7 @@ META = {
     "under a reference future (self-composition by substitution); it also checks that no branch decided before the end of bar k mentions a "
     "future variable. After the run every cell of the supplied market and price frames is proved equal to its pre-run value (nested order-book "
     "lists by deep comparison), which is what makes a repeated run on the same inputs reproduce the result.",
-    "bounds": ["N <= 4 bars (quick) / 6 (thorough), every split point k < N - 1", "one market type at a time: Uniswap v3 LP, Squeeth with its oSQTH pool (TWAP window, 1-minute and resampled 5-minute bars), Deribit (hourly book next to minutely Uniswap data resampled to 1 h, with and without a missing hourly snapshot), Aave v3, GMX v1", "the scripted strategies listed in the scenario names"],
+    "bounds": ["N <= 4 bars (quick) / 6 (thorough), every split point k < N - 1", "one market type at a time: Uniswap v3 LP, Squeeth with its oSQTH pool (TWAP window, 1-minute and resampled 5-minute bars), Deribit (hourly book next to minutely Uniswap data resampled to 1 h, with and without a missing hourly snapshot), Aave v3, GMX v1", "the scripted strategies listed in the scenario names", "snapshots are read inside the hook AND, as kept objects, again after the run"],
     "outside": ["an explicit second run on the same frame objects (implied by the cell-by-cell inputs-intact obligation)", "indicator columns added by user strategies", "histories longer than N", "symbolic future ticks enter the price helper through a stub (uninterpreted function of the tick): get_sqrt_ratio_at_tick on a symbolic tick is out of reach (DESIGN 3.5)"],
     "assumptions": ["a look-ahead shows as a syntactic or solver-confirmed dependence of an output term (or of a branch condition) on a future variable; values are replayed as two concrete runs that share the prefix"],
 }
@@ -491,7 +491,12 @@ def _run(ctx, p, fut):
     Script = script(w, p, log)
     orig_before, orig_on, orig_after = getattr(Script, "before_bar", None), getattr(Script, "on_bar", None), getattr(Script, "after_bar", None)
 
-    def rec_snapshot(i, hook, snapshot):
+    kept = []  # the Snapshot OBJECTS handed to the hooks: a strategy may keep them (e.g. to compare this bar with the previous one)
+
+    def rec_snapshot(i, hook, snapshot, retained=False):
+        if not retained:
+            kept.append((i, hook, snapshot))
+        hook = hook + (".kept_until_the_end_of_the_run" if retained else "")
         log(i, f"{hook}.prices", {c: snapshot.prices[c] for c in snapshot.prices.index})
         for mk, ms in snapshot.market_status.items():
             data = ms.data if hasattr(ms, "data") else ms
@@ -528,6 +533,10 @@ def _run(ctx, p, fut):
     if ctx.sym:
         marks["assertions_before_run"] = len(ctx.ex.solver.assertions())  # variable ranges and stub contracts come before
     bars.run_quiet(a)
+    # ---- the snapshot objects of bars <= k as they are AFTER the run (what a strategy that kept them would read)
+    for i, hook, snap in kept:
+        if i <= k and hook == "on_bar":
+            rec_snapshot(i, hook, snap, retained=True)
     # ---- outputs of bars <= k
     bar_ts = list(a.account_status_df.index)
     for i, st in enumerate(a.account_status):
